@@ -49,6 +49,26 @@ func checkCli(c CliCase) error {
 		if a.Random {
 			args = append(args, "--random-resolve")
 		}
+		if c.copies() >= 2 && len(a.Names)%2 == 0 && !a.Random {
+			// the steps go to a file of their own (--out-steps): one line per tree of the input
+			dir := cli.Scratch()
+			cli.WriteIn(dir, "states.txt", st.String())
+			cli.WriteIn(dir, "in.nw", strings.Repeat(ref.Write(a.Tree)+"\n", c.copies()))
+			r := cli.Run(dir, "", append(append([]string{}, args...), "-i", "in.nw", "--out-steps", "steps.txt", "-o", "acr.nw")...)
+			if r.Code != 0 || r.TimedOut {
+				return fmt.Errorf("gotree acr --out-steps failed: status %d, %s", r.Code, r.Stderr)
+			}
+			lines := strings.Split(strings.TrimSuffix(cli.Read(dir, "steps.txt"), "\n"), "\n")
+			trees := strings.Split(strings.TrimSuffix(cli.Read(dir, "acr.nw"), "\n"), "\n")
+			if len(lines) != c.copies() || len(trees) != c.copies() {
+				return fmt.Errorf("gotree acr -i in.nw --out-steps steps.txt -o acr.nw on %d trees: %d lines of steps %q, %d trees written", c.copies(), len(lines), lines, len(trees))
+			}
+			for _, l := range lines[1:] {
+				if l != lines[0] || !strings.HasPrefix(l, "steps ") {
+					return fmt.Errorf("gotree acr --out-steps on %d copies of one tree: steps file holds %q", c.copies(), lines)
+				}
+			}
+		}
 		return cli.DifferentialIn(args, strings.Repeat(ref.Write(a.Tree)+"\n", c.copies()), map[string]string{"states.txt": st.String()}, "", c.InMode, func() (string, error) {
 			rand.Seed(a.Seed)
 			out := ""
